@@ -196,6 +196,40 @@ func c05Run(j c05Job) *jobReport {
 			rep.fail(sig+"/during-"+where+"/"+img.StepOp+":"+img.Path, map[string]interface{}{"history": j.Hist, "crash_after_step": img.Step, "step": img.StepOp + " " + img.Path, "operation_in_flight": where, "what": what, "files": fileSizes(img.Files)})
 		}
 	}
+	// the final directory once more, recovered LATE: the machine stays down until the clock is more than a window
+	// past the offset; start-up then loads the logs first and catches up with rotations afterwards. Everything that
+	// was durable must be in the weeks it archives.
+	if len(images) > 0 && w.M.Registered {
+		last := images[len(images)-1]
+		if last.Op >= len(j.Hist)-1 {
+			dir := materialize(last.Files)
+			late := w.M.Offset + 4200
+			glow.SetCurrentTimeslot(late)
+			sw2 := &srvWorld{Dir: dir, Temp: temp}
+			var lerr error
+			if p := safely(func() { lerr = sw2.start() }); p != "" || lerr != nil {
+				rep.fail("late-recovery-fails", map[string]interface{}{"history": j.Hist, "err": fmt.Sprint(firstLine(p), lerr)})
+				sw2.Abandon()
+			} else {
+				snap := sw2.S.VerifSnapshot()
+				w.M.restartVolatile()
+				for i := 0; i < 4 && w.M.Offset < snap.ReportsOffset; i++ {
+					w.M.rotate()
+				}
+				got, kerr := snapPersistKey(snap)
+				if want := w.M.persistKey(); kerr != nil || got != want {
+					rep.fail("late-recovery-loses-durable-data", map[string]interface{}{"history": j.Hist, "restart_clock": late, "diff": firstDiff(got, want)})
+				}
+				if p := safely(func() { sw2.Close() }); p != "" {
+					sw2.Abandon()
+				} else {
+					sw2.Cleanup()
+				}
+			}
+			glow.SetCurrentTimeslot(100)
+			rep.Evals++
+		}
+	}
 	if len(rep.Samples) < 2 {
 		rep.Samples = append(rep.Samples, fmt.Sprintf("history %v: %d distinct crash images", j.Hist, len(images)))
 	}
@@ -399,7 +433,7 @@ func init() {
 		}
 		run.Coverage["histories"] = len(jobs)
 		run.Assumption("process-crash model: completed system calls persist, memory is lost; ioutil.WriteFile is performed as open-truncate, write, close so that 'present but empty' is a step boundary; a write that crosses a 4096-byte boundary of the file persists page by page (the kernel honours a fatal signal between two pages: measured on this kernel, a process killed inside one large write leaves a file ending on a page multiple), tears inside a page and loss of completed writes (power failure) are out of scope")
-		return runJobCheck(run, "c05", jobs, "every history of length <= N over {register, authorize, conflicting authorize, first report, second report (ban), rotate, restart} after a first start, fleets of 3-5 devices, and logs long enough for a report and an authorization record to straddle a page boundary; after every mutating file-system step of the run (each page of a write that crosses a page boundary is a step) the directory is copied; every distinct crash image is recovered by the real constructor and compared with the model of the durable prefix (completed operations in, the in-flight operation in or out, nothing partial); evaluations = crash images recovered; distinct = (history, operation in flight) classes")
+		return runJobCheck(run, "c05", jobs, "every history of length <= N over {register, authorize, conflicting authorize, first report, second report (ban), rotate, restart} after a first start, fleets of 3-5 devices, and logs long enough for a report and an authorization record to straddle a page boundary; after every mutating file-system step of the run (each page of a write that crosses a page boundary is a step) the directory is copied; every distinct crash image is recovered by the real constructor and compared with the model of the durable prefix (completed operations in, the in-flight operation in or out, nothing partial); the final directory is also recovered late (clock 4200 slots past the offset: logs loaded first, catch-up rotations afterwards) and must equal the model after those rotations; evaluations = crash images recovered; distinct = (history, operation in flight) classes")
 	}
 }
 
